@@ -149,8 +149,17 @@ type history struct {
 	txns  []*txnRec
 }
 
+// tick advances the logical clock. The call/return times are inputs of the history oracles (real-time order), so a
+// tick is recorded as a write event on one shared object: two executions that differ only in the order of two ticks
+// are different partial orders for the explorer's fingerprint pruning (found by the pruning self-test: without this,
+// an execution whose real-time order made the oracle stricter could be pruned against one where it was more lenient).
+//
 //go:norace
-func (h *history) tick() int { h.clock++; return h.clock }
+func (h *history) tick() int {
+	h.clock++
+	vsched.Event("hist.tick", 0x715c0ffee, true)
+	return h.clock
+}
 
 //go:norace
 func (h *history) add(t *txnRec) { t.ID = len(h.txns); h.txns = append(h.txns, t) }
